@@ -82,6 +82,11 @@ CHECKS['C02'] = ('model_checking', '§5 C02',
     'Terms outside the fragment (generators, mappings, stdlib written in xray) are covered by C15-C20; powers above 2^256 and the sign of an integer zero divided by a negative long are skipped as unspecified; chained comparison mixes of < and > are skipped (grammar ambiguity with turbofish).',
     'bounded-exhaustive term enumeration vs reference evaluator')
 
+CHECKS['C03'] = ('model_checking', '§5 C03',
+    'Lock-step with a persistent-environment reference evaluator (mc/model/scope.py): (1) every declaration tree of <=3 (quick) / <=4-5 (thorough) declarations over {int let, named function, closure-returning function, let-bound lambda} x parameter shapes {none, shadowing parameter, printing default}, nesting depth <=3/4, with a maximal observation at every site (sum of every nameable int plus a call of every nameable callable, all literals distinct), rendered directly and with every callee transported through 7 routes (sequence, tuple, Optional, if, generic identity, stack, mapping), run nested in a lambda and at top level; (2) capture matrix: nesting depth 1..3/4 x {absent, before, after, parameter, both}^levels x {nested calls, escaping closures}; (3) defaults: creations x calls with counted output; (4) recursion through captured names, closures per iteration / recursion level; (5) forward declarations: every declaration order x use position x target x 6 ways of using a function, nested scopes, transitive dependants, and every route by which a forward-dependent function value can leave its scope; (6) 52 identifier spellings (itemN family, keyword prefixes, case, underscores) in 5 declaration roles plus all ordered pairs and tuple-member spellings.',
+    'Named functions get program-unique names (same-named functions aggregate into overloads: C05). Creating a lambda that depends on an unfulfilled forward declaration is expected to be a compilation error. Two known findings (C03-K1, C03-K2) concern forward declarations inside function bodies.',
+    'bounded-exhaustive enumeration of declaration trees vs reference evaluator (persistent environments)')
+
 NA = {
 }
 
